@@ -278,6 +278,17 @@ def run_impl(case):
             row["err"] = err
             rows.append(row)
     obs = {"rows": rows, "twins": twins(case, rows)}
+    # a DataFrame batch whose columns are the reference's in another order: it must not be compared feature-by-position
+    # (the detector refuses it); probed after the run so that the history above is unaffected
+    if case.get("container") == "df" and k >= 2 and rows and rows[-1]["err"] is None:
+        X = container(case, case["batches"][case["ops"][-1][1]])
+        Xp = X[list(X.columns[1:]) + [X.columns[0]]]
+        before = snap(det)
+        try:
+            det.update(Xp)
+            obs["perm_probe"] = {"raised": False, "distance": fl(getattr(det, "current_distance", None)), "total": [before["total"], int(det.total_batches)]}
+        except ValueError:
+            obs["perm_probe"] = {"raised": True, "total": [before["total"], int(det.total_batches)]}
     # side experiments for the distance axioms: identity and symmetry
     side = []
     for a, b in case.get("side", []):
@@ -523,6 +534,10 @@ def direct_check(case, obs):
         ref_n = len(ref); bins = math.isqrt(ref_n); eps = []
         return proxy
 
+    pp = obs.get("perm_probe")
+    if pp is not None and not pp["raised"]:     # (a pending reset after a drift may legitimately run before the refusal)
+        return [f"a DataFrame batch with the reference's columns in another order was accepted and processed by position "
+                f"(total_batches {pp['total'][0]} -> {pp['total'][1]}, recorded distance {pp.get('distance')!r})"]
     for step, ((kind, bi), row) in enumerate(zip(case["ops"], obs["rows"])):
         X = B[bi]
         where = f"step {step}"
